@@ -11,10 +11,11 @@
    [complete_in rs p k] k = number of records of [file_of rs] lying wholly inside its prefix p *)
 From Coq Require Import ZArith List Bool.
 From PTK Require Import Lib.Sx Lib.Py Model.C13_Utf8 Model.C13_HistFile Model.C13_Threaded
-  Model.C13_ThreadedF2 Model.C13_ThreadedF3 Model.C13_ThreadedLate Model.C13_Inline Model.C13_ThreadedEv
+  Model.C13_ThreadedF2 Model.C13_ThreadedF3 Model.C13_ThreadedLate Model.C13_Inline Model.C13_ThreadedEv Model.C13_ThreadedFine
   Proofs.C13_Utf8Facts Proofs.C13_HistFileFacts Proofs.C13_ThreadedFacts
   Proofs.C13_ThreadedF2Facts Proofs.C13_ThreadedF3Facts Proofs.C13_ThreadedLateFacts
-  Proofs.C13_ComposeFacts Proofs.C13_InlineFacts Proofs.C13_ThreadedEvFacts.
+  Proofs.C13_ComposeFacts Proofs.C13_InlineFacts Proofs.C13_ThreadedEvFacts
+  Proofs.C13_ThreadedFineFacts Proofs.C13_GrammarFacts Proofs.C13_FineTornFacts.
 Import ListNotations.
 Open Scope Z_scope.
 
@@ -358,6 +359,130 @@ Theorem C13_skip_sched_patched :
   map c_ev (t_cons (e_st es)) = [false; true] /\ map c_fin (t_cons (e_st es)) = [true; false].
 Proof. exact skip_sched_patched. Qed.
 Print Assumptions C13_skip_sched_patched.
+
+(* ---- round 6: ONE system at thread-switch granularity (Model/C13_ThreadedFine.v) ----
+   Steps: every single statement of the loader thread (the locked append /
+   flag, the evaluation of `list(self._string_load_events)` AFTER the lock is
+   released, each event.set()), a load()'s locked executor job [GRead] and its
+   continuation on the event loop [GCont] (yields + unregistering: a consumer's
+   finish is not atomic with its last read), the halves of append_string, and
+   [GOther]: ANOTHER instance storing a string on the same storage.
+   [vis gs i] = what the event-loop side sees of load() number i. *)
+
+(* Safety: every covered schedule (gok_sched = ok_sched of the coarse model for
+   load()/append_string; another instance's store anywhere except between the
+   first load() and the loader's reading).  A load() that has ended yielded
+   exactly the entries stored or being stored when it started, newest first;
+   one that has not, a prefix; once loaded the cache is everything this object
+   knows of: what the loader read + its own appends ([own_view]: the real
+   storage minus what other instances stored after the loader's read). *)
+Theorem C13_fine_exactly_once : forall S0 sched i c,
+  gok_sched (ginit S0) sched = true ->
+  let gs := grun (ginit S0) sched in
+  vis gs i = Some c ->
+  (c_fin c = true -> c_out c = rev (c_start c)) /\
+  (c_fin c = false -> pre (c_out c) (rev (c_start c))) /\
+  (t_loaded (g_st gs) = true -> t_ls (g_st gs) = rev (own_view (g_real gs) ++ t_fly (g_st gs))).
+Proof. exact g_exactly_once. Qed.
+Print Assumptions C13_fine_exactly_once.
+
+(* Progress, EVERY schedule (no hypothesis at all): once the loader thread is
+   through, for every load() i its pending continuation (if any) delivers what
+   was read, and then it has either ended or its event is set and its next
+   read ends it.  (Loop over a copy taken after the lock region; events of
+   load() calls that finished or unregistered meanwhile are set harmlessly.) *)
+Theorem C13_fine_wakeup : forall S0 sched i c,
+  let gs := grun (ginit S0) sched in
+  t_ph (g_st gs) = P4 -> g_loop gs = LNone ->
+  nth_error (t_cons (g_st gs)) i = Some c ->
+  vis (gstep gs (GCont i)) i = Some c /\
+  (c_fin c = false -> c_ev c = true /\ c_fin (read (g_st gs) c) = true).
+Proof. exact g_wakeup. Qed.
+Print Assumptions C13_fine_wakeup.
+
+(* The same system over the file's BYTES, this object AND other instances
+   appending to one file: (1) the byte-level run is the abstract run and the
+   file is the concatenation of the records of every string stored by anybody,
+   in order - a fresh instance reads them all back, newest first; (2) once
+   loaded this object's cache is the inline load of the file without the
+   records other instances stored after the loader had read it (of the file
+   itself when there are none); (3) every load() that has ended yielded what
+   FileHistory's own loader returns for the records present when it started. *)
+Theorem C13_fine_over_file : forall (ts_of : str -> bytes),
+  (forall s, nolf (ts_of s)) ->
+  forall rs0 sched,
+  Forall valid_rec rs0 -> Forall glabel_valid sched ->
+  gok_sched (ginit (map snd rs0)) sched = true ->
+  let sf := gcrun ts_of (ginit (map snd rs0), file_of rs0) sched in
+  let gs := fst sf in
+  gs = grun (ginit (map snd rs0)) sched /\
+  (exists rs, Forall valid_rec rs /\ snd sf = file_of rs /\ map snd rs = real_store gs /\
+              load_bytes (snd sf) = rev (real_store gs)) /\
+  (t_loaded (g_st gs) = true -> t_fly (g_st gs) = [] ->
+     (forall rs, Forall valid_rec rs -> map snd rs = own_view (g_real gs) ->
+                 t_ls (g_st gs) = load_bytes (file_of rs)) /\
+     (all_early (g_real gs) = true -> t_ls (g_st gs) = load_bytes (snd sf))) /\
+  (forall i c, vis gs i = Some c -> c_fin c = true ->
+     forall rs, Forall valid_rec rs -> map snd rs = c_start c -> c_out c = load_bytes (file_of rs)).
+Proof. exact g_over_file. Qed.
+Print Assumptions C13_fine_over_file.
+
+(* A TORN file under the fine system ("crash, restart, load in a background
+   thread, keep appending" - this object and others): the file is cut at ANY
+   byte, nothing is stored by anybody before the loader has read it
+   ([gnes_sched]).  The byte-level run is the abstract run over S0 = the k
+   completed entries + at most one damaged string, and every load() that has
+   ended yielded: what was appended before it started (newest first), at most
+   one damaged string, the k completed entries intact and in order. *)
+Theorem C13_fine_torn : forall (ts_of : str -> bytes),
+  (forall s, nolf (ts_of s)) ->
+  forall rs0 p sfx sched,
+  Forall valid_rec rs0 -> p ++ sfx = file_of rs0 -> Forall glabel_valid sched ->
+  let S0 := rev (load_bytes p) in
+  gok_sched (ginit S0) sched = true -> gnes_sched (ginit S0) sched = true ->
+  exists k d, complete_in rs0 p k /\ (length d <= 1)%nat /\
+    (p = file_of (firstn k rs0) -> d = []) /\
+    fst (gcrun ts_of (ginit S0, p) sched) = grun (ginit S0) sched /\
+    (forall i c, vis (grun (ginit S0) sched) i = Some c -> c_fin c = true ->
+       exists tail, c_start c = S0 ++ tail /\ c_out c = rev tail ++ d ++ rev (firstn k (map snd rs0))).
+Proof. exact g_torn. Qed.
+Print Assumptions C13_fine_torn.
+
+(* ---- round 6: the file format as a grammar ----------------------------------------
+   doc ::= item* ; item ::= junk line (LF-free bytes not starting with '+', then
+   "\n": "# ..." comments, blank lines, foreign text, non-UTF-8 bytes) | entry
+   (('+' utf8(line) "\n")+), no two entries adjacent.  The loader is a parser
+   of that grammar: parse (print doc) = the entries of doc, newest first, for
+   EVERY document; what store_string writes is such a document. *)
+Theorem C13_grammar_roundtrip : forall d,
+  Forall item_ok d -> separated d = true -> load_bytes (print_doc d) = rev (entries d).
+Proof. exact grammar_roundtrip. Qed.
+Print Assumptions C13_grammar_roundtrip.
+
+Theorem C13_file_is_doc : forall rs,
+  file_of rs = print_doc (doc_of rs) /\
+  (Forall valid_rec rs ->
+   Forall item_ok (doc_of rs) /\ separated (doc_of rs) = true /\ entries (doc_of rs) = map snd rs).
+Proof. exact file_is_doc_ok. Qed.
+Print Assumptions C13_file_is_doc.
+
+(* The cut right after a record's first '+' marker: one EMPTY string for the
+   record being written (the one damaged entry), every earlier entry intact. *)
+Theorem C13_torn_after_plus : forall rs ts,
+  Forall valid_rec rs -> nolf ts ->
+  load_bytes (file_of rs ++ store_head ts ++ [PLUS]) = [] :: rev (map snd rs).
+Proof. exact torn_after_plus. Qed.
+Print Assumptions C13_torn_after_plus.
+
+(* Non-vacuity of the fine system's hypothesis: own and foreign appends before
+   the first load(), a read before the loader's snapshot, a foreign store and a
+   second load() while the loader is inside its loops. *)
+Example C13_fine_sched_somewhere :
+  gok_sched (ginit [[97]])
+    [GIns [98]; GSto [98]; GOther [70]; GStart; GRead 0; GCont 0; GL; GL; GL; GStart; GOther [71]; GL; GL;
+     GRead 0; GL; GIns [99]; GCont 0; GSto [99]; GRead 1; GCont 1] = true.
+Proof. vm_compute. reflexivity. Qed.
+Print Assumptions C13_fine_sched_somewhere.
 
 (* Non-vacuity. *)
 Example C13_valid_rec_somewhere :
